@@ -474,6 +474,18 @@ func (e *emitter) execLine(line string) error {
 		}
 		cs, obs := execUBP(string(vc.UnHex(toks[2])), p, vc.UnHex(toks[6]))
 		e.emit(prefix, "ubp", cs, obs, "corpus")
+	case "conn", "live":
+		cfg, st, sizes, tailErr, err := parseConnToks(toks)
+		if err != nil {
+			return err
+		}
+		if toks[0] == "live" {
+			cs, obs := execLive(cfg, st, sizes)
+			e.emit(prefix, "live", cs, obs, "corpus")
+		} else {
+			cs, obs := execConn(cfg, st, sizes, tailErr)
+			e.emit(prefix, "conn", cs, obs, "corpus")
+		}
 	case "relay":
 		mode, ds, err := parseRelayToks(toks)
 		if err != nil {
@@ -523,6 +535,7 @@ func main() {
 		genUDP(e, r.Fork(), thorough)
 		genBuild(e, r.Fork(), thorough)
 		genRelay(e, r.Fork(), thorough)
+		genConn(e, r.Fork(), thorough)
 	}
 	e.out.Finish(*stats, nil)
 }
